@@ -125,7 +125,8 @@ pub fn compare(resp: &[u8], expect: &Outcome, what: &str, st: &mut Stats) -> Ver
     Ok(())
 }
 
-const QTYPES: [u16; 11] = [mr::T_A, mr::T_AAAA, mr::T_NS, mr::T_MX, mr::T_SRV, mr::T_CNAME, mr::T_SOA, mr::T_TXT, mr::T_ANY, 99, mr::T_PTR];
+// (43 = DS, 47 = NSEC: types with special placement rules in DNSSEC-aware servers, ordinary data here)
+const QTYPES: [u16; 13] = [mr::T_A, mr::T_AAAA, mr::T_NS, mr::T_MX, mr::T_SRV, mr::T_CNAME, mr::T_SOA, mr::T_TXT, mr::T_ANY, 99, mr::T_PTR, 43, 47];
 
 /// Names at and around everything the catalog contains.
 pub fn query_names(model: &MCatalog<MEntry>, extra: &[Vec<Vec<u8>>], cap: usize) -> Vec<(MName, u16)> {
@@ -245,6 +246,9 @@ pub fn oracle_c07(case: &C07Case, st: &mut Stats) -> Verdict {
                 let mut labels = base.labels.clone();
                 if labels.is_empty() {
                     base.clone()
+                } else if *sel % 3 == 0 && crate::gen::merged_confusable(base).is_some() {
+                    // one label that swallows the whole base name
+                    crate::gen::merged_confusable(base).unwrap()
                 } else {
                     let mut first = vec![b'x', labels[0].len() as u8];
                     first.extend_from_slice(&labels[0]);
@@ -350,6 +354,7 @@ pub fn oracle_c07(case: &C07Case, st: &mut Stats) -> Verdict {
 fn c07_case() -> impl Strategy<Value = C07Case> {
     let qtype = prop_oneof![
         5 => prop_oneof![Just(mr::T_A), Just(mr::T_NS), Just(mr::T_SOA), Just(mr::T_TXT), Just(mr::T_ANY)],
+        2 => prop_oneof![Just(43u16), Just(46u16), Just(47u16), Just(48u16), Just(39u16), Just(64u16), Just(257u16)],
         3 => prop_oneof![Just(mr::T_AXFR), Just(mr::T_IXFR), Just(mr::T_MAILA), Just(mr::T_MAILB)],
         1 => any::<u16>(),
     ];
